@@ -51,7 +51,7 @@ CFG = dict(
          "on the REAL IPSets with the package's mock ipset command; starting kernel = random mix of stale main sets (right or "
          "wrong type/parameters/members), stale temporary sets, other sets matching Felix's name pattern and foreign sets; "
          "faults injected at random command indices (restore lines: bad exit status only, failed write of that line, or failed "
-         "write surfacing 1-7 lines later, possibly while a later set is written; destroys); streams: random, batch (every "
+         "write surfacing 1-7 lines later, possibly while a later set is written; destroys); streams: random, filter (SetFilter: sets drop out of the needed set and come back while still in the kernel, members changing meanwhile), batch (every "
          "set dirty in one session + such a fault), faulty (many faults), drift (somebody else changes the kernel between applies), clean-start; "
          "observed: the mock kernel after EVERY command and after every apply.  non-trivial = a command failed or a swap "
          "was executed; distinct by starting kernel + history",
@@ -66,7 +66,7 @@ CFG = dict(
                  "del/swap/destroy iff a named set is missing; any command may also fail for another reason)",
                  "ownership = the name classes of IPVersionConfig (checked against OwnsIPSet/IsTempIPSetName/NameFor*IPSet by "
                  "the driver); set ids short enough not to be truncated",
-                 "no neededIPSetNames filter (SetFilter unused); `ipset list` itself does not fail",
+                 "`ipset list` itself does not fail; SetFilter is given main-set names",
                  "Go map iteration orders and the order of the resync queue are arbitrary: the model accepts every order",
                  "int_dataplane.go apply() ordering is checked textually (ApplyUpdates, wait, tables, wait, ApplyDeletions)"],
 )
